@@ -6,6 +6,7 @@ import (
 	"fmt"
 	"go/token"
 	"go/types"
+	"os"
 	"slices"
 	"strings"
 	"time"
@@ -24,6 +25,8 @@ type targetPanic struct {
 // engineError aborts the current path as inconclusive (unsupported feature,
 // budget exceeded, ...).
 type engineError struct{ msg string }
+
+var debugStack = os.Getenv("SYMGO_STACK") != ""
 
 // pathEnd silently ends the current path (infeasible assumption).
 type pathEnd struct{ reason string }
@@ -747,6 +750,10 @@ func (e *Engine) runFrame(fr *frame) {
 		r := recover()
 		tp, ok := r.(targetPanic)
 		if !ok {
+			if ee, isEE := r.(engineError); isEE && debugStack && strings.Count(ee.msg, " <- ") < 40 {
+				ee.msg += " <- " + fr.fn.String()
+				panic(ee)
+			}
 			panic(r) // engine-level: propagate
 		}
 		fr.panicking = true
